@@ -100,6 +100,75 @@ func numberSpaceStage(props []string) (fails []*Case, calls int) {
 	return fails, calls
 }
 
+// structurallyImpossible: no CSS value has unbalanced parentheses, brackets or quotation marks,
+// or contains '|' or a brace.
+func structurallyImpossible(v string) bool {
+	var st []byte
+	var quote byte
+	for i := 0; i < len(v); i++ {
+		c := v[i]
+		if quote != 0 {
+			if c == quote {
+				quote = 0
+			}
+			continue
+		}
+		switch c {
+		case '\'', '"':
+			quote = c
+		case '(', '[':
+			st = append(st, c)
+		case ')', ']':
+			if len(st) == 0 || (c == ')') != (st[len(st)-1] == '(') {
+				return true
+			}
+			st = st[:len(st)-1]
+		case '|', '{', '}':
+			return true
+		}
+	}
+	return quote != 0 || len(st) != 0
+}
+
+// structuralStage: every value a handler accepts among the token pool and the implementation's
+// own literals is damaged in one place (a character dropped, or one of ( ) [ ] | ' " inserted);
+// whatever is structurally impossible afterwards must be rejected.
+func structuralStage(props []string) (fails []*Case, calls int) {
+	pool := append(append([]string{}, cssTokens...), handlerLiterals()...)
+	pool = append(pool, "translate(1px,2px)", "translate(1px)", "scale(2)", "skew(1deg)", "perspective(1px)", "rotate(45deg)", "1px 2px", "left top", "50% 50%", "1 1", "'a'", "\"a\"", "\"a\" \"b\"", "url(http://a/b.png)", "url('http://a/b.png')", "drop-shadow(1px 1px red)", "steps(1,end)", "cubic-bezier(0,0,1,1)", "rgb(1,2,3)", "hsl(0,0%,0%)", "disc url(http://a/b.png)", "1px solid red", "repeat(2, 1fr)", "minmax(1px, 2px)")
+	for _, prop := range props {
+		h := css.GetDefaultHandler(prop)
+	seeds:
+		for _, seed := range pool {
+			calls++
+			if seed == "" || structurallyImpossible(seed) || !h(seed) {
+				continue
+			}
+			for i := 0; i <= len(seed); i++ {
+				var cands []string
+				if i < len(seed) {
+					cands = append(cands, seed[:i]+seed[i+1:])
+				}
+				for _, ins := range []string{"(", ")", "[", "]", "|", "'", "\""} {
+					cands = append(cands, seed[:i]+ins+seed[i:])
+				}
+				for _, v := range cands {
+					if !structurallyImpossible(v) {
+						continue
+					}
+					calls++
+					if h(v) {
+						fails = append(fails, &Case{Prop: "C18", Kind: "structure", Strs: []BStr{BStr(prop), BStr(v)},
+							Clause: "C18: the default handler for " + q(prop) + " accepts " + q(v) + ", which no CSS value space contains (unbalanced bracket or quotation mark, or a '|')"})
+						break seeds
+					}
+				}
+			}
+		}
+	}
+	return fails, calls
+}
+
 // keywordDictionaryStage returns one failing case per (property, word) and the number of handler calls.
 func keywordDictionaryStage(props []string) (fails []*Case, calls int, free []string) {
 	cands := append(handlerLiterals(), misspellings()...)
